@@ -182,6 +182,10 @@ func traceLine(work, line string, lineNo int, r *rng, waterEvery int) {
 						oracleFail("n-balance-gain line=%d zeit=%d steps=%d residual=%g", lineNo, zeit, day.steps, res)
 					}
 				}
+				// C07: dissolved fertiliser never exceeds fertiliser applied (also across measurement-overwrite days)
+				if g.UMS > g.DSUMM+1e-9*(1+math.Abs(g.DSUMM)) || g.UMS < -1e-9 {
+					oracleFail("dissolved-exceeds-applied line=%d zeit=%d ums=%v dsumm=%v", lineNo, zeit, g.UMS, g.DSUMM)
+				}
 				prevDayEndC1, prevDayEndZeit = c1, zeit
 			}
 			s1 := storage(g, 1)
